@@ -429,6 +429,10 @@ impl World for XmlWorld {
         let m = greedy_min(case, &candidates, &mut fails, budget);
         self.emit(&m, &mode)
     }
+    fn shrink_candidates(&self, v: &Value) -> Vec<Value> {
+        let (case, mode) = self.parse(v);
+        candidates(&case).iter().map(|c| self.emit(c, &mode)).collect()
+    }
     fn rule(&self) -> String {
         "XML case = (grammar-generated malformed XML with namespaces, PIs, CDATA, doctypes, CR/NUL in every position; tokenizer options; pipeline tokenizer+policy sink or tokenizer+tree builder+model DOM; one schedule); C15/C08 cases also carry a comparison mode (schedule | exact_errors | profile | discard_bom | normalised reference); non-trivial = non-empty input and a schedule with at least one interior cut or fault event, or a comparison mode other than 'schedule'; distinct = distinct hash of (input, schedule, pipeline, options, mode)".into()
     }
@@ -491,6 +495,16 @@ impl World for CompositeWorld {
         let mut v = p.minimise(case, class, budget, toggles);
         v["world"] = json!(p.world_name());
         v
+    }
+    fn shrink_candidates(&self, case: &Value) -> Vec<Value> {
+        let p = self.part_for(case);
+        p.shrink_candidates(case)
+            .into_iter()
+            .map(|mut v| {
+                v["world"] = json!(p.world_name());
+                v
+            })
+            .collect()
     }
     fn rule(&self) -> String {
         self.parts.iter().map(|p| format!("[{}] {}", p.1.world_name(), p.1.rule())).collect::<Vec<_>>().join(" || ")
